@@ -97,18 +97,19 @@ def accept (refs : Refs) (f : Filter) (d : DVal) (frs : Frs) : Res Frs :=
     else .ok (frs.add true)
   | .str v =>
     let eqs (a : String) : Bool := a.toUTF8.toList.map (·.toNat) == v
-    if f.op == "contains" then .ok (frs.add (f.args.any eqs))
+    if f.args.isEmpty then .err            -- "filter on string requires filter_arg"
+    else if f.op == "contains" then .ok (frs.add (f.args.any eqs))
     else if f.op == "!contains" then .ok (frs.add (!f.args.any eqs))
     else if f.op == "eq" then match f.args with
       | a :: _ => .ok (frs.add (eqs a))
-      | [] => .panic
+      | [] => .err
     else if f.op == "ne" then match f.args with
       | a :: _ => .ok (frs.add (!eqs a))
-      | [] => .panic
+      | [] => .err
     else .ok frs
   | .u64 v =>
     match f.args with
-    | [] => .panic
+    | [] => .err
     | a :: _ =>
       match parseDec a with
       | none => .err
@@ -121,7 +122,7 @@ def accept (refs : Refs) (f : Filter) (d : DVal) (frs : Frs) : Res Frs :=
         else .ok frs
   | .u256 v =>
     match f.args with
-    | [] => .panic
+    | [] => .err
     | a :: _ =>
       match parseDec a with
       | none => .err
